@@ -1016,3 +1016,13 @@ Proof.
   split; [|repeat split; reflexivity].
   cbn. repeat split; repeat constructor; cbn; try tauto; intuition discriminate.
 Qed.
+
+(* the hypotheses of kf_trace_load are satisfiable: a load that returns a well-formed tree and opened files *)
+Example load_hyps_sat :
+  exists t' ops,
+    load_tree true toy_dec toy_unb64 toy_key [] (set_own (Some 1%N) (fresh ok_tree))
+              (to_tree true toy_enc toy_b64 toy_key [] ok_tree) = Ok (t', ops) /\ wf t' /\ ops = [1%N; 1%N; 1%N].
+Proof.
+  eexists. eexists. split; [vm_compute; reflexivity|]. split; [|reflexivity].
+  cbn. repeat split; repeat constructor; cbn; try tauto; intuition discriminate.
+Qed.
